@@ -614,6 +614,7 @@ func orchestrate(check *Check, tier string, seed int64, nworkers int, budgetOver
 	exit := 0
 	nNew := 0
 	replayDir := filepath.Join(root(), "replays", check.ID)
+	os.RemoveAll(replayDir) // replay files of earlier runs are stale
 	newSeen := map[string]int{}
 	for _, v := range viol {
 		if k, ok := known[v.Finding]; ok && v.Finding != "" && k.Status == "known" && k.appliesTo(check.ID) {
